@@ -121,33 +121,47 @@ def run_driver(exe, execs, wd, tag):
     out = os.path.join(wd, "%s.ndjson" % tag)
     rest = list(execs)
     part = 0
-    with open(out, "w") as outf:
-        while rest:
-            sp = os.path.join(wd, "%s.p%d.script" % (tag, part))
-            tp = os.path.join(wd, "%s.p%d.ndjson" % (tag, part))
-            with open(sp, "w") as f:
-                for e in rest:
-                    f.write("\n".join(e["lines"]) + "\n")
-            env = dict(os.environ)
-            env.update(ASAN_ENV)
-            p = vf.sh([exe, sp, tp], timeout=3000, check=False, env=env)
-            lines = [x for x in open(tp).read().splitlines() if x.strip()]
-            done = sum(1 for x in lines if x.startswith('{"e":"Reset"'))
-            if lines and lines[-1].startswith('{"e":"End"'):
-                if p.returncode != 0:
-                    raise vf.Infra("drv_filter rc=%d although it reached End: %s" % (p.returncode, p.stdout[-800:]))
-                outf.write("\n".join(lines) + "\n")
-                break
-            # the process died inside execution number done-1
-            if done == 0:
-                raise vf.Infra("drv_filter died before its first execution (rc=%d): %s" % (p.returncode, p.stdout[-800:]))
-            if not lines[-1].startswith('{"e":"Crash"'):
-                lines.append('{"e":"Crash","sig":-1,"rc":%d}' % p.returncode)
-            outf.write("\n".join(lines) + "\n")
-            rest = rest[done:]
-            part += 1
-            if part > 400:
-                raise vf.Infra("drv_filter keeps dying")
+    parts = []
+    while rest:
+        sp = os.path.join(wd, "%s.p%d.script" % (tag, part))
+        tp = os.path.join(wd, "%s.p%d.ndjson" % (tag, part))
+        with open(sp, "w") as f:
+            for e in rest:
+                f.write("\n".join(e["lines"]) + "\n")
+        env = dict(os.environ)
+        env.update(ASAN_ENV)
+        p = vf.sh([exe, sp, tp], timeout=3000, check=False, env=env)
+        os.unlink(sp)
+        parts.append(tp)
+        done, last = 0, ""
+        for x in open(tp):
+            if x.strip():
+                last = x
+                if x.startswith('{"e":"Reset"'):
+                    done += 1
+        if last.startswith('{"e":"End"'):
+            if p.returncode != 0:
+                raise vf.Infra("drv_filter rc=%d although it reached End: %s" % (p.returncode, p.stdout[-800:]))
+            break
+        # the process died inside execution number done-1
+        if done == 0:
+            raise vf.Infra("drv_filter died before its first execution (rc=%d): %s" % (p.returncode, p.stdout[-800:]))
+        if not last.startswith('{"e":"Crash"'):
+            with open(tp, "a") as f:
+                f.write('\n{"e":"Crash","sig":-1,"rc":%d}\n' % p.returncode)
+        rest = rest[done:]
+        part += 1
+        if part > 400:
+            raise vf.Infra("drv_filter keeps dying")
+    if len(parts) == 1 and last.startswith('{"e":"End"'):
+        os.rename(parts[0], out)
+    else:
+        with open(out, "w") as outf:
+            for tp in parts:
+                for x in open(tp):
+                    if x.strip():
+                        outf.write(x)
+                os.unlink(tp)
     return out
 
 
@@ -217,14 +231,22 @@ def count_events(chk, tracefile):
 
 def mc(chk):
     base = os.path.join(vf.SPEC, "mc")
-    for mod, cfg, neg in [("FilterMC", "FilterMC.cfg", False),
-                          ("FilterMC", "FilterMC_neg_offbyone.cfg", True),
-                          ("FilterMC", "FilterMC_neg_lastphase.cfg", True),
-                          ("FilterNorm", "FilterNorm.cfg", False),
-                          ("FilterNorm", "FilterNorm_neg_zero_total.cfg", True),
-                          ("FilterNorm", "FilterNorm_neg_nodiffuse.cfg", True)]:
-        r = vf.tlc_mc(os.path.join(base, mod + ".tla"), cfg=os.path.join(base, cfg), workers=8, timeout=900,
-                      expect_violation=neg, coverage=(cfg == "FilterMC.cfg"))
+    jobs = [("FilterMC", "FilterMC.cfg", False),
+            ("FilterMC", "FilterMC_neg_offbyone.cfg", True),
+            ("FilterMC", "FilterMC_neg_lastphase.cfg", True),
+            ("FilterNorm", "FilterNorm.cfg", False),
+            ("FilterNorm", "FilterNorm_neg_zero_total.cfg", True),
+            ("FilterNorm", "FilterNorm_neg_nodiffuse.cfg", True)]
+
+    def one(job):
+        mod, cfg, neg = job
+        return vf.tlc_mc(os.path.join(base, mod + ".tla"), cfg=os.path.join(base, cfg), workers=4, timeout=900,
+                         expect_violation=neg, coverage=(cfg == "FilterMC.cfg"), tag=cfg[:-4])
+
+    from concurrent.futures import ThreadPoolExecutor
+    with ThreadPoolExecutor(max_workers=3) as ex:
+        results = list(ex.map(one, jobs))
+    for (mod, cfg, neg), r in zip(jobs, results):
         chk.add_tlc(r, ("negative config (must be rejected) " if neg else "model check ") + cfg)
         if not neg and (r.inv_violation or r.deadlock):
             raise vf.Infra("the Filter model itself violates an invariant under %s:\n%s" % (cfg, r.out[-2500:]))
@@ -252,6 +274,10 @@ def run(prop, args):
         tr = run_driver(exe, [{"lines": lines}], wd, "replay")
         vf.validate_batches(chk, "FilterTrace", [tr], cfg=cfg, parallel=1)
         return chk.finish()
+
+    import glob
+    for f in glob.glob(os.path.join(vf.EVID, "replay", prop + ".*")):
+        os.unlink(f)
 
     # 1. design-level model checking
     mc(chk)
@@ -303,4 +329,8 @@ def run(prop, args):
         "narrow (8-bit) pipeline, repeat NORMAL/PAD/REFLECT, 8-bit-per-channel source formats",
         "out-of-bounds writes are observed by AddressSanitizer (heap redzones), not by the specification",
         "TLC/SANY and the CommunityModules Json/IOUtils readers are trusted"]
-    return chk.finish()
+    rc = chk.finish()
+    if not args.keep:
+        import shutil
+        shutil.rmtree(wd, ignore_errors=True)
+    return rc
